@@ -195,6 +195,17 @@ def _c15_fs(lines, seed, tier):
         c["key"] = c["key"] + "+fs"
         c["tags"] = list(c.get("tags") or []) + ["fsloader"]
         out.append(json.dumps(c) + "\n")
+    # ... and one in which the engine's only loader is a ChainLoader over the two: "the first loader that has the name wins"
+    # is the same sentence; a chain reports no time stamps, so only histories in which auto-reload stays off
+    plain = [l for l in lines if '"setauto' not in l and '"setdevmode' not in l and '"auto":true' not in l]
+    for l in rnd.sample(plain, min(len(plain), max(k, 200))):
+        c = json.loads(l)
+        if c.get("auto") or any(op.get("op") in ("setautoreload", "setauto", "setdevmode") for op in c["ops"]):
+            continue
+        c["chain"] = True
+        c["key"] = c["key"] + "+chain"
+        c["tags"] = list(c.get("tags") or []) + ["chainloader"]
+        out.append(json.dumps(c) + "\n")
     return out
 
 
@@ -240,13 +251,23 @@ def _c20_floods(lines, seed, tier):
         c["key"] = c["key"] + "+floods"
         c["tags"] = list(c.get("tags") or []) + ["flood"]
         out.append(json.dumps(c) + "\n")
+    # ... and a variant in which every lookup is made 20 times in a row (at the production capacity and at the model's):
+    # a repeated lookup is a stuttering step of the specification, every repetition gives the same value
+    for l in rnd.sample(lines, min(len(lines), 120 if tier == "quick" else 600)):
+        c = json.loads(l)
+        c["ops"] = [op for op in c["ops"] for _ in range(20)]
+        if rnd.random() < 0.5:
+            c["cap"] = 1000
+        c["key"] = c["key"] + "+hot"
+        c["tags"] = list(c.get("tags") or []) + ["hot"]
+        out.append(json.dumps(c) + "\n")
     return out
 
 
 PROPS["C20"] = dict(
     level="model_checking",
     stages=[dict(name="enum", module="AttrCache", cmd="attrhist", cfg={"quick": "MC_C20_quick.cfg", "thorough": "MC_C20_thorough.cfg"},
-                 timeout={"quick": 300, "thorough": 1500}),
+                 timeout={"quick": 300, "thorough": 1500}, transform=_c20_floods),
             dict(name="walks", module="AttrCache", cmd="attrhist", cfg={"quick": "MC_C20_sim.cfg", "thorough": "MC_C20_sim.cfg"},
                  # TLC's simulator checks the emitting invariant on every generated successor, so each walk yields
                  # one history per enabled last lookup (~280): num is the number of walks, not of histories
